@@ -34,6 +34,8 @@ type Prog struct {
 	Files int
 	// Notes: what the loader did besides loading (name normalisation), printed with every report.
 	Notes []string
+	// SplitReturns: returns created by the SSA normalisation (see ssanorm.go)
+	SplitReturns int
 
 	fieldWriters map[*types.Var][]Writer
 	callers      map[*ssa.Function][]CallSite
@@ -216,6 +218,9 @@ func build(dir string, pkgs []*packages.Package) (*Prog, error) {
 			return
 		}
 		seen[f] = true
+		if os.Getenv("SA_NO_SSANORM") == "" {
+			p.SplitReturns += splitReturns(f)
+		}
 		p.Funcs = append(p.Funcs, f)
 		for _, a := range f.AnonFuncs {
 			add(a)
